@@ -524,6 +524,26 @@ func ruleSamplesReach(w *World, r *Report, pfx string) {
 			if !okApp {
 				bad = orStr(bad, "found estimators are not collected")
 			}
+			// ... after the options were applied (they fill the decorator groups): in the function that
+			// applies them, the option calls come first
+			for _, b := range ta.Parent().Blocks {
+				for _, in := range b.Instrs {
+					oc, ok := in.(*ssa.Call)
+					if !ok || oc.Call.IsInvoke() || oc.Call.StaticCallee() != nil || typeName(oc.Call.Value.Type()) != "mpb.BarOption" {
+						continue
+					}
+					// the option loop's header (the block that decides to leave it) dominates the lookup
+					hdr := b
+					for _, l := range naturalLoops(ta.Parent()) {
+						if l.Blocks[b] {
+							hdr = l.Header
+						}
+					}
+					if !(hdr.Dominates(ta.Block()) && !ta.Block().Dominates(hdr)) {
+						bad = orStr(bad, "moving-average decorators are looked up before the options that install the decorators are applied: none is ever found")
+					}
+				}
+			}
 			// ... under the ok of that assertion, and the value collected is the asserted one
 			for _, b := range ta.Parent().Blocks {
 				for _, in := range b.Instrs {
